@@ -33,6 +33,7 @@ package geom
 //@   ensures result == NPts(s) && result >= 0 && result * Dim(s.ctype) == len(s.floats)
 
 //@ func Sequence.CoordinatesType
+//@   notypeinv
 //@   ensures result == s.ctype
 
 //@ func Sequence.GetXY
